@@ -696,6 +696,16 @@ CONTENTS = ["", "precious\n", "a: 5\n", "x: 1\ny: [1, 2]\n", "été → ünï\n"
 STRS = ["abc", "hello world", "été", "v1", ""]
 
 
+ALPHABET = "abc xyz019:-{}[]#'\"\\\n\n\t\r\u00e9\u00fc\u2192\U0001f600\x01\x7f"
+
+
+def gen_content(rng):
+    """pre-existing file content: a fixed palette + arbitrary text"""
+    if rng.random() < 0.6:
+        return rng.choice(CONTENTS)
+    return "".join(rng.choice(ALPHABET) for _ in range(rng.choice([1, 3, 10, 40, 200])))
+
+
 def gen_value(rng, kind):
     if kind == "int":
         return rng.choice([0, 1, 5, -3, 42])
@@ -756,7 +766,7 @@ def gen_scenario(rng):
     pre = {}
     for n in NAMES:
         if rng.random() < 0.4:
-            pre[n] = rng.choice(CONTENTS)
+            pre[n] = gen_content(rng)
     if sc["overwrite"] is not True and sc["target"] in pre and rng.random() < 0.7:
         del pre[sc["target"]]          # keep the immediate refusal of the target a minority
     sc["pre"] = pre
@@ -915,7 +925,7 @@ def run(ctx: Ctx):
             return process(ctx, cases, root, origin)
 
         ro_cases = []
-        n_scen = ctx.budget(220, 1200)
+        n_scen = ctx.budget(220, 3000)
         dis += batch(n_scen, "generated")
         if ctx.tie_broken and not any(v["found_input"] for v in ctx.violations):
             # a tie is broken and no failing input yet: search harder
